@@ -64,10 +64,12 @@ func verifFuncName(f interface{}) string {
 	return n
 }
 
+var verifBacking = make([]*big.Int, 1101)
+
 func verifProbeStack(op operation) (pops, pushes int) {
 	pops, maxOK := -1, -1
 	for n := 0; n <= 1100; n++ {
-		st := &Stack{data: make([]*big.Int, n)}
+		st := &Stack{data: verifBacking[:n]}
 		if op.validateStack(st) == nil {
 			if pops < 0 {
 				pops = n
@@ -124,37 +126,27 @@ func verifDumpSet(set [256]operation) []verifOp {
 	return out
 }
 
-// verifSameSet: content equality of two instruction sets as far as it is observable (validity, function identities, flags,
-// stack behaviour).
-func verifSameSet(a, b [256]operation) bool {
+// verifFingerprint: everything observable about an instruction set (validity, function identities, flags, stack
+// behaviour, constant gas) as one string; two sets are "the same" iff their fingerprints are equal.
+func verifFingerprint(a [256]operation) string {
+	var sb strings.Builder
 	for i := 0; i < 256; i++ {
-		x, y := a[i], b[i]
-		if x.valid != y.valid {
-			return false
-		}
+		x := a[i]
 		if !x.valid {
 			continue
 		}
-		if verifFuncName(x.execute) != verifFuncName(y.execute) || verifFuncName(x.gasCost) != verifFuncName(y.gasCost) ||
-			verifFuncName(x.memorySize) != verifFuncName(y.memorySize) || x.halts != y.halts || x.jumps != y.jumps ||
-			x.writes != y.writes || x.reverts != y.reverts || x.returns != y.returns {
-			return false
-		}
-		p1, q1 := verifProbeStack(x)
-		p2, q2 := verifProbeStack(y)
-		if p1 != p2 || q1 != q2 {
-			return false
-		}
+		p, q := verifProbeStack(x)
+		g := uint64(0)
 		if verifConstGasFns[verifFuncName(x.gasCost)] {
-			g1, _ := verifCallGas(x.gasCost, params.GasTable{})
-			g2, _ := verifCallGas(y.gasCost, params.GasTable{})
-			if g1 != g2 {
-				return false
-			}
+			g, _ = verifCallGas(x.gasCost, params.GasTable{})
 		}
+		fmt.Fprintf(&sb, "%d:%s,%s,%s,%v,%v,%v,%v,%v,%d,%d,%d;", i, verifFuncName(x.execute), verifFuncName(x.gasCost), verifFuncName(x.memorySize),
+			x.halts, x.jumps, x.writes, x.reverts, x.returns, p, q, g)
 	}
-	return true
+	return sb.String()
 }
+
+func verifSameSet(a, b [256]operation) bool { return verifFingerprint(a) == verifFingerprint(b) }
 
 func verifBigOpt(b *big.Int) interface{} {
 	if b == nil {
@@ -180,7 +172,9 @@ func TestVerifDumpJumpTables(t *testing.T) {
 		"constantinople": constantinopleInstructionSet, "spring": springInstructionSet,
 	}
 	sets := map[string][]verifOp{}
+	fps := map[string]string{}
 	for _, n := range names {
+		fps[n] = verifFingerprint(vars[n])
 		if !verifSameSet(ctors[n], vars[n]) {
 			t.Fatalf("package variable %sInstructionSet differs from its constructor", n)
 		}
@@ -263,8 +257,9 @@ func TestVerifDumpJumpTables(t *testing.T) {
 			num := new(big.Int).SetUint64(h)
 			evm := NewEVM(Context{BlockNumber: num}, nil, c, Config{})
 			var match []string
+			fp := verifFingerprint(evm.interpreter.cfg.JumpTable)
 			for _, n := range names {
-				if verifSameSet(evm.interpreter.cfg.JumpTable, vars[n]) {
+				if fp == fps[n] {
 					match = append(match, n)
 				}
 			}
